@@ -37,6 +37,8 @@ type Solver struct {
 	Errors    int
 	timeoutMs int
 	trace     io.Writer
+	Lost      bool // the process was killed (no answer long after its own timeout) and restarted: context gone
+	killed    int32
 }
 
 func NewSolver(mode smtMode, timeoutMs int, bin ...string) *Solver {
@@ -83,6 +85,7 @@ func (s *Solver) send(cmd string) {
 }
 
 func (s *Solver) Reset() {
+	s.Lost = false
 	s.send("(reset)")
 	s.send("(set-option :print-success false)")
 	if s.bin[0] != "cvc5" {
@@ -174,7 +177,27 @@ func (s *Solver) readSexp() string {
 func (s *Solver) checkSat() SatResult {
 	t0 := time.Now()
 	s.send("(check-sat)")
+	// z3 does not always honour its own timeout (preprocessing of div/mod-heavy integer problems): a watchdog kills the
+	// process well after it; the path is then reported inconclusive (Lost)
+	cmd := s.cmd
+	wd := time.AfterFunc(time.Duration(s.timeoutMs)*time.Millisecond*3+5*time.Second, func() {
+		atomic.StoreInt32(&s.killed, 1)
+		cmd.Process.Kill()
+	})
 	line := s.readLine()
+	wd.Stop()
+	if atomic.LoadInt32(&s.killed) == 1 {
+		atomic.StoreInt32(&s.killed, 0)
+		s.Queries++
+		s.Time += time.Since(t0)
+		if s.trace != nil {
+			fmt.Fprintln(s.trace, "; => killed")
+		}
+		s.cmd.Wait()
+		s.start()
+		s.Lost = true
+		return Unknown
+	}
 	s.Queries++
 	s.Time += time.Since(t0)
 	if s.trace != nil {
@@ -193,6 +216,7 @@ func (s *Solver) checkSat() SatResult {
 	fmt.Fprintln(os.Stderr, "solver: unexpected reply:", line)
 	if strings.Contains(line, "died") {
 		s.start()
+		s.Lost = true
 	}
 	return Unknown
 }
